@@ -98,6 +98,8 @@ def c07_nontrivial(c, i):
         return "s" in i
     if c[0] == "c07.conc":
         return "s" in i
+    if c[0] == "c07.obj":
+        return i.count("sv") >= 2
     if c[0] == "c07.csave":
         return i.count("s") >= 3
     if c[0] == "c07.hist":
@@ -141,6 +143,21 @@ def c07_classify(c, i):
             else:
                 k += 1
         out.append("commits-during-save=" + ("0" if w == 0 else "1-9" if w < 10 else "10-999" if w < 1000 else "1000+"))
+    elif kind == "obj":
+        recs, cur = [], None
+        for t in i:
+            if t == "sv":
+                cur = []; recs.append(cur)
+            elif cur is not None and "." in t and t.split(".")[0] in ("open", "openk", "write", "fsync", "rename", "close", "unlink"):
+                cur.append(t)
+        failed = [any(t.endswith(".0") for t in r) for r in recs]
+        out.append("obj-saves=" + str(len(recs)))
+        for k in range(1, len(recs)):
+            if any(failed[:k]) and "rename.1" in recs[k]:
+                out.append("successful-save-after-failed-save"); break
+        for r in recs:
+            for t in r:
+                if t.endswith(".0"): out.append("obj-failed:" + t.split(".")[0])
     elif kind == "csave":
         out.append("csave-jobs=" + ("<64" if int(c[1]) < 64 else "64-255" if int(c[1]) < 256 else "256+"))
         out.append("csave-savers=" + c[3])
@@ -186,8 +203,8 @@ CFG = {
     "nontrivial": c07_nontrivial,
     "classify": c07_classify,
     "signatures": {"c07_sig_newline": c07_sig_newline},
-    "rule": "concurrent saves (c07.csave): 3-12 goroutines each repeating `commit to one of its own jobs; save` on ONE offsetDB with 48-512 jobs (what sync persistence does with several processors) while a loader parses every new content of the offsets file: it must parse, name every job once, and hold each job's table after ONE k of its commits, k inside [commits whose save had returned before the read, commits started after it]; histories (c07.hist): saves run one after the other on one directory, real plugin/input/file save, real offset.Save through a byte callback and real offset.SaveYAML/LoadYAML (the encoder's bytes are an oracle in the case line): a save killed or failed (EIO) at write/fsync/close/rename (generic) resp. fsync/rename/unlink (file) so that its temp file stays behind, followed by saves of shorter and of longer states, two interrupted saves in a row, first save interrupted, plain successive saves (thorough: +150 random histories of 2-4 saves); the file under the real name is read and loaded after every save; process part: the save re-executed under strace for every single fault (EIO) and every kill point (SIGKILL at syscall entry) of open/write/fsync/rename/close/unlink, both protocols, plus first-save and two-fault cases (thorough: +330 random tables/blobs with 0-2 faults); function part: every stream name over {a,':',' ','-'} up to length 3 (thorough 4), pairs of them, the same as file names, a pool of names events can carry (':'-containing, UTF-8, control bytes, 1-6 kB, empty, with newline) x boundary offsets (0 … 2^63-1), random tables (0-4 jobs, 0-4 streams, duplicate sources/streams), every truncation and single-byte deletion of a two-job file, hand-written malformed files, random mutations of valid files, random strings over the format alphabet, random sequential schedules of real commits/truncations/saves, and committing goroutines racing the saver on jobs with 2-200 streams and with ~2000 streams (commit k of a source carries offset k round-robin over its racing streams, so the job's table is a function of k: the WHOLE loaded table of a source must equal its table after ONE k, with k between the commits returned before the save started and those started before it returned); distinct = distinct case line; non-trivial = something was loaded back / a save syscall was observed",
-    "corr_name": "OffsetsFile.render/parse = offsetDB.save/load/parse (file bytes and loaded table); CommitSnap.step? = jobProvider.commit/truncateJob + save (sequential schedules exactly; concurrent runs through the history-window oracle); SaveProto.step? (fileFixed, genFixed) accepts the observed syscall trace of every save (openat without O_TRUNC is a different op) and predicts the file left on disk, across histories of saves (SaveProto.runHist)",
+    "rule": "one long-lived offsetDB in one process (c07.obj): commits and 3-5 saves on the same jobProvider/offsetDB under strace, EIO at open/write/fsync/rename/close/unlink of the first or second save (and two failing saves, kill in a later save), followed by further commits and successful saves; the offsets file is copied after every save and parsed by the parent; concurrent saves (c07.csave): 3-12 goroutines each repeating `commit to one of its own jobs; save` on ONE offsetDB with 48-512 jobs (what sync persistence does with several processors) while a loader parses every new content of the offsets file: it must parse, name every job once, and hold each job's table after ONE k of its commits, k inside [commits whose save had returned before the read, commits started after it]; histories (c07.hist): saves run one after the other on one directory, real plugin/input/file save, real offset.Save through a byte callback and real offset.SaveYAML/LoadYAML (the encoder's bytes are an oracle in the case line): a save killed or failed (EIO) at write/fsync/close/rename (generic) resp. fsync/rename/unlink (file) so that its temp file stays behind, followed by saves of shorter and of longer states, two interrupted saves in a row, first save interrupted, plain successive saves (thorough: +150 random histories of 2-4 saves); the file under the real name is read and loaded after every save; process part: the save re-executed under strace for every single fault (EIO) and every kill point (SIGKILL at syscall entry) of open/write/fsync/rename/close/unlink, both protocols, plus first-save and two-fault cases (thorough: +330 random tables/blobs with 0-2 faults); function part: every stream name over {a,':',' ','-'} up to length 3 (thorough 4), pairs of them, the same as file names, a pool of names events can carry (':'-containing, UTF-8, control bytes, 1-6 kB, empty, with newline) x boundary offsets (0 … 2^63-1), random tables (0-4 jobs, 0-4 streams, duplicate sources/streams), every truncation and single-byte deletion of a two-job file, hand-written malformed files, random mutations of valid files, random strings over the format alphabet, random sequential schedules of real commits/truncations/saves, and committing goroutines racing the saver on jobs with 2-200 streams and with ~2000 streams (commit k of a source carries offset k round-robin over its racing streams, so the job's table is a function of k: the WHOLE loaded table of a source must equal its table after ONE k, with k between the commits returned before the save started and those started before it returned); distinct = distinct case line; non-trivial = something was loaded back / a save syscall was observed",
+    "corr_name": "OffsetsFile.render/parse = offsetDB.save/load/parse (file bytes and loaded table); CommitSnap.step? = jobProvider.commit/truncateJob + save (sequential schedules exactly; concurrent runs through the history-window oracle); SaveProto.step? (fileFixed, genFixed) accepts the observed syscall trace of every save (openat without O_TRUNC is a different op) and predicts the file left on disk, across histories of saves (SaveProto.runHist; on one object/process: runObjHist with the buffer reset before formatting)",
     "trusted_base": [
         "strace 6.1 fault injection (-e inject=<syscall>:error=EIO|signal=KILL:when=N); SIGKILL is delivered at syscall entry (the syscall is not executed)",
         "file-system semantics of Model/SaveProto.lean: rename atomic on the volatile and the durable level; fsync copies volatile to durable; un-synced data survives a process kill, not a power loss; the temp name is fresh",
